@@ -8,7 +8,28 @@ os.environ.setdefault("TZ", "UTC")
 if sys.path[0] != REPO:
     sys.path.insert(0, REPO)
 
-import odml  # noqa: E402
+# Whatever the package draws while it is imported (a default argument evaluated once, a module
+# level id) is process state too: the sources of randomness it could use are seeded for the
+# duration of the import, so that every interpreter imports the same package state.
+import random as _random  # noqa: E402
+import uuid as _uuid  # noqa: E402
+
+_import_rng = _random.Random(0x0D31)
+_real_uuid4, _real_uuid1 = _uuid.uuid4, _uuid.uuid1
+_random_state = _random.getstate()
+_uuid.uuid4 = lambda: _uuid.UUID(int=_import_rng.getrandbits(128), version=4)
+_uuid.uuid1 = lambda *a, **k: _uuid.UUID(int=_import_rng.getrandbits(128), version=1)
+_random.seed(0x0D31)
+try:
+    import odml  # noqa: E402
+    import odml.tools.converters  # noqa: E402,F401
+    import odml.scripts.odml_convert  # noqa: E402,F401
+    import odml.scripts.odml_to_rdf  # noqa: E402,F401
+    import odml.templates  # noqa: E402,F401
+    import odml.validation  # noqa: E402,F401
+finally:
+    _uuid.uuid4, _uuid.uuid1 = _real_uuid4, _real_uuid1
+    _random.setstate(_random_state)
 
 _here = os.path.abspath(odml.__file__)
 if not _here.startswith(REPO + os.sep):
